@@ -80,6 +80,18 @@ func checkC06(r *core.Run, p *core.Program) {
 	r.Rule("C06.handlers", "every value event the validator can accept in a value position has a non-rejecting handler in the builder that receives it when no template is given (the interface builder, reached directly or by delegation from the top-level, list, map, edge, node, marker and record builders), and the interface builder's switch over array types covers every array type that can be delivered as a whole or chunked array.")
 	r.Rule("C06.edge-end", "a builder that stacks itself when a container begins leaves the stack at the container's end event (or when its child completes), never from a value event.")
 	r.Rule("C06.references", "every builder rejects, delegates or registers a local reference with the reference filler; the filler calls or queues the setter and runs and clears the queue when the marker arrives; setters of growable containers resolve their element when called.")
+
+	r.Rule("C06.retained-bytes", "every builder that keeps a byte slice handed in by an event (in the built value, a field, or a deferred closure) copies it first: the decoders reuse their buffers, so an uncopied slice changes when the next array, identifier or chunk is read.")
+	nRet := checkRetainedBytes(r, p, "C06.retained-bytes", nil)
+	r.Floor("C06.retained-bytes", "event-facing byte-slice parameters in package builder", nRet, 40)
+	// per-array state of the builder context: every field modified while an array is assembled is re-initialised by BeginArray
+	perDoc := "per-document state: a new builder context is created for every unmarshal call (C16.fresh-per-call)"
+	checkResetSpec(r, p, "C06.retained-bytes", resetSpec{rel: "builder", typ: "Context", resets: []string{"BeginArray"},
+		sub: map[string][]string{"chunkRemainingLength": {"BeginArrayChunk"}, "moreChunksFollow": {"BeginArrayChunk"}},
+		scratch: map[string]string{"CurrentBuilder": perDoc, "builderStack": perDoc, "recordTypeName": perDoc, "recordType": perDoc, "recordTypes": perDoc,
+			"referenceFiller": perDoc, "arrayCompletionCallback": "replaced by ContinueMultiComponentArray for the second part of media/custom arrays; always set by BeginArray first"}})
+	nSt := checkStoreThenReuse(r, p, "C06.retained-bytes", "builder")
+	r.Floor("C06.retained-bytes", "slice fields of the builder that are stored away", nSt, 1)
 	r.NotDecide("that re-marshaling the untyped value yields the same data; records -> maps data equality; which object a reference resolves to")
 	a := newAnalysis(p)
 	m := newBuilderMatrix(p, a)
